@@ -37,7 +37,7 @@ func init() {
 			return map[string]string{
 				"free strings":        "every ASCII string (all 128 values per byte) of length 0.." + n + " without an 'xn--' label, through the real idna.ToASCII",
 				"IDN":                 "names of 29..32 two-byte labels (punycode 240..264 bytes) and of 3..5 labels of 40 two-byte letters (raw 245..407 bytes) with one arbitrary ASCII byte in the final label, through the real idna.ToASCII (punycode) for all three validators",
-				"xn-- labels": "'' / 'a.' / '_s.a.' + 'xn--' or 'XN--' + 0..3 bytes from {'-','0','a','z'} + optional '.com', through the real idna.ToASCII (punycode decoder), all three validators",
+				"xn-- labels":         "'' / 'a.' / '_s.a.' + 'xn--' or 'XN--' + 0..3 bytes from {'-','0','a','z'} + optional '.com', through the real idna.ToASCII (punycode decoder), all three validators",
 				"numeric final label": "final labels of 1..4, 9..11, 19..21, 38..40 and 63 bytes made of '9's or of the leading digits of 2^64/2^128 with two arbitrary ASCII bytes (one at a chosen position, one last), after 'a.' or '_s.b.', for all three validators",
 				"boundaries":          "label lengths 62..64, service labels 15..18, total lengths 252..254; bytes from [a-z0-9_-] minus 'x' with one arbitrary ASCII byte at the first/last position of the boundary label",
 			}
